@@ -1041,7 +1041,8 @@ func (eval Evaluator) tensorScaleInvariant(ct0 *rlwe.Ciphertext, ct1 *rlwe.Eleme
 		ringQ.Add(opOut.Value[1], tmpCt.Value[1], opOut.Value[1])
 	}
 
-	opOut.Scale = MulScaleInvariant(eval.parameters, ct0.Scale, tmp1Q0.Scale, level)
+	// ct1 and not tmp1Q0: the operands are swapped when ct1 is the output
+	opOut.Scale = MulScaleInvariant(eval.parameters, ct0.Scale, ct1.Scale, level)
 
 	return
 }
